@@ -11,6 +11,9 @@ CLAIMED = {
     "C09": dict(cat="model_checking", tech="caret-in-screen / fixed-grid invariants evaluated by TLC on the recorded geometry after every character (Trace_Term)",
                 text="After every character of every generated stream (until a resize request) the recorded caret, terminal size and buffer size must satisfy CaretInScreen, and Viewdata/Mode 7 the fixed 40x24 grid; evaluated by TLC on traces of the real engine. Bounded/sampled exploration of the input space.",
                 note="geometry read through the public API after each character", ref="4/C09"),
+    "C14": dict(cat="model_checking", tech="TLA+ queue model (SixelQueue) with independent Submit/Finish/Poll/Clear actions; every TLC behaviour enacted against the real Buffer through a cfg-guarded gate hook; traces validated by TLC; decoder character machine model (SixelDecoder)",
+                text="TLC explores every interleaving of submissions, completions, polls and clears for K<=4 images and checks arrival order / no loss / no duplicate / shadow rule / poll-never-waits on the model; every maximal behaviour is then enacted on the real engine (completion order forced through the gate) and each observed queue/layer state is judged by Trace_Sixel. Decoder payloads (all <=4-token payloads + seeded) are decoded by the real parser and judged Rectangular.",
+                note="completion order controlled by the gate hook; scheduling inside a decode not explored; K<=4", ref="4/C14"),
     "C16": dict(cat="model_checking", tech="TLA+ model of the palette table checked by TLC; TLC-generated operation sequences replayed into the Rust code; recorded traces validated by Trace_Palette under TLC",
                 text="Palette.tla models the index table; TLC checks InsertOk on all operation sequences <= 5 and exports witnesses that are replayed into icy_engine::Palette; every recorded insert (direct, via SGR/CSI t), every palette-file export/import and the 6-bit codec are judged by Trace_Palette. Bounded + sampled, not a proof of the Rust code.",
                 note="trusts the harness projection (get_rgb of every index after each call) and TLC", ref="4/C16"),
